@@ -94,6 +94,13 @@ func H17d_q() {
 	vAssume(r.setRawResponse(raw))
 	// the handler sets a header and tries to write; neither may survive
 	r.Header()["X-Handler"] = []string{"yes"}
+	// ... and may also touch a header that earlier middleware had set (connect-go appends to Vary on GET requests)
+	switch vInt("touch", 0, 2) {
+	case 1:
+		r.Header()["X-Cors"] = append(r.Header()["X-Cors"], "handler-added")
+	case 2:
+		r.Header()["X-Cors"] = []string{"handler-replaced"}
+	}
 	r.Write([]byte{9})
 	r.finish(snapshot)
 	want := 200
@@ -104,7 +111,7 @@ func H17d_q() {
 	_, handlerHdr := under.hdr["X-Handler"]
 	vAssert(!handlerHdr, "no handler-set header survives")
 	c := under.hdr["X-Cors"]
-	vAssert(len(c) == 1 && c[0] == "keep", "headers set by earlier middleware are restored")
+	vAssert(len(c) == 1 && c[0] == "keep", "headers set by earlier middleware are restored to what they were before the handler ran")
 	rv := under.hdr["X-Raw"]
 	vAssert(len(rv) == 2 && rv[0] == "r1" && rv[1] == "r2", "every raw header value is sent, in order")
 	tr := under.hdr["Trailer"]
